@@ -317,6 +317,7 @@ def main():
         violations, known_hits, inconcl = [], [], []
         unknown = {}
         total = discharged = 0
+        b_total = b_ok = 0
         fuc, samples, bounded, undecided = [], [], [], []
         canaries = 0
         for j, r in results:
@@ -344,6 +345,7 @@ def main():
             if len(mine) < j.get('min_obligations', {}).get(prop, 1):
                 inconcl.append('%s: only %d obligations for %s (expected at least %d)' % (j['id'], len(mine), prop, j.get('min_obligations', {}).get(prop, 1)))
             nd = 0
+            is_bounded = bool(j.get('bounded_inputs'))
             for o in mine:
                 if o['kind'] == 'known':
                     # expected-to-fail half of a clause split by a known finding
@@ -352,23 +354,33 @@ def main():
                     if o['status'] == 'FAILURE':
                         known_hits.append((kid, kfe[0]['what'] if kfe else o['desc']))
                     continue
-                total += 1
-                if o['status'] == 'SUCCESS':
-                    discharged += 1; nd += 1
-                    continue
+                if is_bounded:
+                    # a bounded stand-in is reported separately and never counted as proved
+                    b_total += 1
+                    if o['status'] == 'SUCCESS':
+                        b_ok += 1; nd += 1
+                        continue
+                else:
+                    total += 1
+                    if o['status'] == 'SUCCESS':
+                        discharged += 1; nd += 1
+                        continue
                 if o['status'] != 'FAILURE':
                     unknown.setdefault(j['id'], []).append(o['name']); continue
                 # a failing safety obligation may be a listed known finding
                 kf = JOBS.match_safety_finding(known, prop, j, o)
                 if kf:
-                    known_hits.append((kf['id'], kf['what'])); total -= 1
+                    known_hits.append((kf['id'], kf['what']))
+                    if is_bounded: b_total -= 1
+                    else: total -= 1
                     continue
                 violations.append((j, r, o))
             f = dict(function=j['enforce'], pretty=j.get('pretty', ''), source=j['src'], job=j['id'], rendered_lines=r.get('rendered_lines'),
                      mode=r.get('mode'), backend=r.get('backend'), seconds=r.get('seconds'), obligations=len(mine), discharged=nd,
                      cache_hit=r.get('cache_hit', False), callee_contracts=j['replace'])
             if r.get('bounded'):
-                f['bounded'] = r['bounded']; bounded.append(dict(function=j['enforce'], **r['bounded']))
+                f['bounded'] = dict(r['bounded'], counted_as_proved=not is_bounded)
+                bounded.append(dict(function=j['enforce'], obligations=len(mine), discharged=nd, counted_as_proved=not is_bounded, **r['bounded']))
             fuc.append(f)
             for o in mine[:400]:
                 if o['kind'] == 'ensures' and len(samples) < 12:
@@ -400,7 +412,7 @@ def main():
         ev = dict(property_id=prop, tier=tier, seed=seed, level='proof', wall_s=round(wall, 2), violations=len(violations),
                   coverage=dict(obligations=total, discharged=discharged,
                                 checker_cmd='tools/extract.py (g++ -O0 GIMPLE -> C) ; tools/c2h.py (contract clauses -> harness+stubs) ; goto-cc --function modeb_harness ; cbmc ' + ' '.join(CBMC_FLAGS),
-                                trusted_base=JOBS.TRUSTED_BASE, functions_under_contract=fuc, bounded=bounded, undecided=undecided,
+                                trusted_base=JOBS.TRUSTED_BASE, functions_under_contract=fuc, bounded=bounded, bounded_obligations=b_total, bounded_discharged=b_ok, undecided=undecided,
                                 inconclusive=inconcl, known_findings=sorted(seen), canaries_fired=canaries,
                                 samples=samples, dropped_by_extraction=JOBS.DROPPED, explanation=JOBS.PROP_NOTES.get(prop, '')),
                   assumptions=JOBS.ASSUMPTIONS + JOBS.PROP_ASSUMPTIONS.get(prop, []))
@@ -408,8 +420,8 @@ def main():
             ev['level'] = 'other'
         os.makedirs(os.path.join(VERIF, 'evidence'), exist_ok=True)
         json.dump(ev, open(os.path.join(VERIF, 'evidence', prop + '.json'), 'w'), indent=1)
-        print('%s: %d functions under contract, %d/%d obligations discharged, %d known findings, %d violations, %d inconclusive, %.1fs'
-              % (prop, len(fuc), discharged, total, len(seen), len(violations), len(inconcl), wall))
+        print('%s: %d functions under contract, %d/%d obligations discharged (+%d/%d bounded), %d known findings, %d violations, %d inconclusive, %.1fs'
+              % (prop, len(fuc), discharged, total, b_ok, b_total, len(seen), len(violations), len(inconcl), wall))
         if violations:
             sys.exit(1)
         if inconcl:
